@@ -50,6 +50,7 @@ pub fn to_signal(s: &SigSpec) -> Signal {
         Dir::In => Signal::input(s.name.clone(), s.bits, d),
         Dir::Out => Signal::output(s.name.clone(), s.bits),
         Dir::Bidir => Signal::bidirectional(s.name.clone(), s.bits, d),
+        Dir::Virt => unreachable!("virtual signals are taken from the bound test, never constructed"),
     }
 }
 
@@ -105,7 +106,10 @@ pub struct Script<'c> {
     pub recorded: Vec<Resp>,
     lines: Rc<RefCell<Vec<String>>>,
     /// storage for the answer being returned (signals the entries point into)
-    answer: Vec<(usize, bool, Val)>, // (index, from extra?, value)
+    answer: Vec<(usize, u8, Val)>, // (index, 0 = layout / 1 = extra / 2 = virtual signal of the test, value)
+    /// the test's own virtual signals, when the driver is one that answers for every signal of the test that is no
+    /// input (their values must not matter: a virtual signal is its expression)
+    pub virt: Vec<(SigSpec, Signal)>,
 }
 
 impl<'c> Script<'c> {
@@ -121,7 +125,7 @@ impl<'c> Script<'c> {
             .collect();
         let ghost = SigSpec { name: "GHOST".into(), bits: 5, dir: Dir::Out, default: None };
         extra.push((ghost.clone(), to_signal(&ghost)));
-        Script { case, sigs, extra, call: 0, recorded: vec![], lines, answer: vec![] }
+        Script { case, sigs, extra, call: 0, recorded: vec![], lines, answer: vec![], virt: vec![] }
     }
 
     fn respond(&mut self, kind: &str, inputs: &[InputEntry<'_>]) -> Result<(), DrvError> {
@@ -134,7 +138,7 @@ impl<'c> Script<'c> {
                 return Err(DrvError(*code));
             }
         }
-        let mut ans: Vec<(usize, bool, Val)> = vec![];
+        let mut ans: Vec<(usize, u8, Val)> = vec![];
         for (i, s) in self.case.layout.iter().enumerate() {
             let keep = self.case.read_names.contains(&s.name);
             let v = match driver_value(self.case.drv_seed, k, s, keep, self.case.p_zx) {
@@ -142,7 +146,7 @@ impl<'c> Script<'c> {
                 Some(Err(false)) => Val::Z,
                 _ => Val::X,
             };
-            ans.push((i, false, v));
+            ans.push((i, 0, v));
         }
         if let Some(Fault::Deviate(at, kind, pos)) = &self.case.fault {
             if *at == k {
@@ -156,7 +160,7 @@ impl<'c> Script<'c> {
                     1 => {
                         let e = pos % self.extra.len();
                         let at = pos % (n + 1);
-                        ans.insert(at, (e, true, Val::N(k as i64)));
+                        ans.insert(at, (e, 1, Val::N(k as i64)));
                     }
                     2 => {
                         if n > 0 {
@@ -174,16 +178,23 @@ impl<'c> Script<'c> {
                         if n > 0 {
                             let e = pos % self.extra.len();
                             let v = ans[pos % n].2.clone();
-                            ans[pos % n] = (e, true, v);
+                            ans[pos % n] = (e, 1, v);
                         }
                     }
                 }
             }
         }
+        for i in 0..self.virt.len() {
+            ans.push((i, 2, Val::N(1000 + k as i64)));
+        }
         self.recorded.push(Resp::Ok(
             ans.iter()
                 .map(|(i, ex, v)| {
-                    let spec = if *ex { self.extra[*i].0.clone() } else { self.case.layout[*i].clone() };
+                    let spec = match *ex {
+                        0 => self.case.layout[*i].clone(),
+                        1 => self.extra[*i].0.clone(),
+                        _ => self.virt[*i].0.clone(),
+                    };
                     (spec, v.clone())
                 })
                 .collect(),
@@ -196,7 +207,11 @@ impl<'c> Script<'c> {
         self.answer
             .iter()
             .map(|(i, ex, v)| OutputEntry {
-                signal: if *ex { &self.extra[*i].1 } else { &self.sigs[*i] },
+                signal: match *ex {
+                    0 => &self.sigs[*i],
+                    1 => &self.extra[*i].1,
+                    _ => &self.virt[*i].1,
+                },
                 value: match v {
                     Val::N(n) => OutputValue::Value(*n),
                     Val::Z => OutputValue::Z,
@@ -475,12 +490,23 @@ pub fn run_dynamic(case: &Case, src: &str) -> ImpRun {
         panicked |= bl[0].starts_with("bind panic");
         lines.borrow_mut().extend(bl);
         if let Some(tc) = tc {
+            let virt: Vec<(SigSpec, Signal)> = if case.tags.contains(&"echo-virtual") {
+                tc.signals
+                    .iter()
+                    .filter(|s| !s.is_input() && !s.is_output())
+                    .map(|s| (SigSpec { name: s.name.clone(), bits: s.bits, dir: Dir::Virt, default: None }, s.clone()))
+                    .collect()
+            } else {
+                vec![]
+            };
             if case.own_wo {
                 let mut drv = DrvOwn(Script::new(case, lines.clone()));
+                drv.0.virt = virt;
                 panicked |= iterate(&tc, &mut drv, &lines, case.cap);
                 script = std::mem::take(&mut drv.0.recorded);
             } else {
                 let mut drv = DrvDefault(Script::new(case, lines.clone()));
+                drv.0.virt = virt;
                 panicked |= iterate(&tc, &mut drv, &lines, case.cap);
                 script = std::mem::take(&mut drv.0.recorded);
             }
@@ -614,6 +640,7 @@ pub fn enc_sig(s: &SigSpec) -> String {
         Dir::In => ("I", s.default.map(|n| n.to_string()).unwrap_or("Z".into())),
         Dir::Out => ("O", "-".to_string()),
         Dir::Bidir => ("B", s.default.map(|n| n.to_string()).unwrap_or("Z".into())),
+        Dir::Virt => ("V", "-".to_string()),
     };
     format!("{} {} {} {}", hex(&s.name), s.bits, t, d)
 }
